@@ -34,8 +34,11 @@ Pwl(x, xs, fs) ==
              IN  RLin(fs[i + 1], fs[i], x, xs[i + 1], xs[i])
 
 \* ------------------------------------------------------------- moving average
+\* balanced recursion (depth log2 of the window) keeps TLC's evaluation stack shallow for windows of ~100 layers
 RECURSIVE RSumRange(_, _, _)
-RSumRange(s, a, b) == IF a > b THEN RZero ELSE RAdd(s[a], RSumRange(s, a + 1, b))
+RSumRange(s, a, b) == IF a > b THEN RZero
+                      ELSE IF a = b THEN s[a]
+                      ELSE LET m == (a + b) \div 2 IN RAdd(RSumRange(s, a, m), RSumRange(s, m + 1, b))
 
 \* valid-mode moving average of window w >= 1: length max(n - w + 1, 0)
 MovAvg(s, w) ==
